@@ -200,6 +200,9 @@ class Bisector(IntegralDefuzzifier):
         """
         x = np.atleast_2d(Op.midpoints(minimum, maximum, self.resolution))
         y = np.atleast_2d(term.membership(x))
+        if x.shape[1] == 1:
+            # single sample (resolution=1): the squeezed memberships of a batch are rows, not samples
+            y = y.reshape(-1, 1)
         area = np.nancumsum(y, axis=1)
         # normalising the cumulative sum is not necessary, but it is convenient because it results in nan
         # when arrays are full of nans (ie, area = 0). Otherwise, result would be minimum + (maximum-minimum)/2
@@ -237,6 +240,9 @@ class Centroid(IntegralDefuzzifier):
         """
         x = np.atleast_2d(Op.midpoints(minimum, maximum, self.resolution))
         y = np.atleast_2d(term.membership(x))
+        if x.shape[1] == 1:
+            # single sample (resolution=1): the squeezed memberships of a batch are rows, not samples
+            y = y.reshape(-1, 1)
         z = ((x * y).sum(axis=1) / y.sum(axis=1)).squeeze()
         return z  # type: ignore
 
@@ -267,6 +273,9 @@ class LargestOfMaximum(IntegralDefuzzifier):
         """
         x = np.atleast_2d(Op.midpoints(minimum, maximum, self.resolution))
         y = np.atleast_2d(term.membership(x))
+        if x.shape[1] == 1:
+            # single sample (resolution=1): the squeezed memberships of a batch are rows, not samples
+            y = y.reshape(-1, 1)
         y_max = (y > 0) & (y == y.max(axis=1, keepdims=True))
         lom = np.where(y_max, x, np.nan)
         with warnings.catch_warnings():
@@ -301,6 +310,9 @@ class MeanOfMaximum(IntegralDefuzzifier):
         """
         x = np.atleast_2d(Op.midpoints(minimum, maximum, self.resolution))
         y = np.atleast_2d(term.membership(x))
+        if x.shape[1] == 1:
+            # single sample (resolution=1): the squeezed memberships of a batch are rows, not samples
+            y = y.reshape(-1, 1)
         y_max = (y > 0) & (y == y.max(axis=1, keepdims=True))
         mom = np.where(y_max, x, np.nan)
         with warnings.catch_warnings():
@@ -335,6 +347,9 @@ class SmallestOfMaximum(IntegralDefuzzifier):
         """
         x = np.atleast_2d(Op.midpoints(minimum, maximum, self.resolution))
         y = np.atleast_2d(term.membership(x))
+        if x.shape[1] == 1:
+            # single sample (resolution=1): the squeezed memberships of a batch are rows, not samples
+            y = y.reshape(-1, 1)
         y_max = (y > 0) & (y == y.max(axis=1, keepdims=True))
         som = np.where(y_max, x, np.nan)
         with warnings.catch_warnings():
